@@ -101,19 +101,22 @@ Proof. repeat split; reflexivity. Qed.
 (* Non-vacuity of the round trip: a nested heterogeneous value - a list of
    mixed types (av) holding a list of variants, a dict whose values differ in
    type (a{sv}), a wrapper, a bytearray, a list travelling as its base type
-   ([1, True] -> ai), a dict keyed by wrappers - is inside the claim, infers
-   "(ava{sv}yayaia{ys})", and the model round-trips it to an equal value. *)
+   ([1, True] -> ai), a dict keyed by wrappers, a dict whose values travel as
+   their base type ({'a': 5, 'b': True} -> a{si}) - is inside the claim, infers
+   "(ava{sv}yayaia{ys}a{si})", and the model round-trips it to an equal value. *)
 Definition ex_value : pyval :=
   PTuple [PList [PInt 1; PStr [97]; PList [PBool true; PFloat 0]];
           PDict [(PStr [107], PInt (-5)); (PStr [108], PTuple [PStr [120]; PInt 2])];
           PWrap 121 (PInt 7);
           PBytes [1; 255];
           PList [PInt 1; PBool true];
-          PDict [(PWrap 121 (PInt 1), PStr [97]); (PWrap 121 (PInt 2), PStr [])]].
+          PDict [(PWrap 121 (PInt 1), PStr [97]); (PWrap 121 (PInt 2), PStr [])];
+          PDict [(PStr [97], PInt 5); (PStr [98], PBool true)]].
 
 Example C19_roundtrip_nonvacuous :
   inside_claim ex_value /\
-  sig_from_py ex_value = Ok [40; 97; 118; 97; 123; 115; 118; 125; 121; 97; 121; 97; 105; 97; 123; 121; 115; 125; 41] /\
+  sig_from_py ex_value = Ok [40; 97; 118; 97; 123; 115; 118; 125; 121; 97; 121; 97; 105; 97; 123; 121; 115; 125;
+                             97; 123; 115; 105; 125; 41] /\
   match m_marshal 40 [118] (PList [ex_value]) 3 false None with
   | Ok (n, b, _) =>
       n = len b /\
@@ -125,7 +128,8 @@ Example C19_roundtrip_nonvacuous :
                       PInt 7;
                       PList [PInt 1; PInt 255];
                       PList [PInt 1; PInt 1];
-                      PDict [(PInt 1, PStr [97]); (PInt 2, PStr [])]]
+                      PDict [(PInt 1, PStr [97]); (PInt 2, PStr [])];
+                      PDict [(PStr [97], PInt 5); (PStr [98], PInt 1)]]
       | _ => False
       end
   | Err _ => False
@@ -146,4 +150,26 @@ Example C19_outside_claim_fails :
 Proof.
   cbv zeta. repeat split; try reflexivity;
     (destruct fuel as [|[|[|[|[|f]]]]]; [reflexivity..|destruct le; vm_compute; reflexivity]).
+Qed.
+
+(* D61 (repaired by fixes/D61-dict-value-type-from-first.patch): before, the
+   inference took a dict's value type from the LAST value.  {'a': 5, 'b': True}
+   is inside the claim (the values differ in Python type, bool being a subclass
+   of the first value's class int, and so should travel as the common base
+   type: a{si}); the legacy inference gives a{sb}, and the variant round trip
+   under it returns {'a': True, 'b': True}, which is not equal to the value.
+   (With the current inference: C19_variant_roundtrip, and the last component
+   of C19_roundtrip_nonvacuous.) *)
+Theorem C19_variant_roundtrip_legacy_refuted :
+  exists v, inside_claim v /\
+    sig_from_py_legacy v = Ok [97; 123; 115; 98; 125] /\ sig_from_py v = Ok [97; 123; 115; 105; 125] /\
+    exists n b v',
+      m_marshal_legacy 8 [118] (PList [v]) 0 true None = Ok (n, b, None) /\ n = len b /\
+      m_unmarshal 8 [118] b 0 true (Some []) = Ok (n, [v']) /\
+      v' = PDict [(PStr [97], PBool true); (PStr [98], PBool true)] /\ ~ py_eq v' v.
+Proof.
+  exists (PDict [(PStr [97], PInt 5); (PStr [98], PBool true)]).
+  split; [vm_compute; reflexivity|]. split; [reflexivity|]. split; [reflexivity|].
+  eexists; eexists; eexists. split; [vm_compute; reflexivity|]. split; [reflexivity|].
+  split; [vm_compute; reflexivity|]. split; [reflexivity|]. vm_compute. discriminate.
 Qed.
